@@ -361,7 +361,129 @@ def formulas(src):
     out.append("Definition src_jacobian (f_wrap : R -> R) (step ra dec ra_p0 dec_p0 ra_m0 dec_m0 ra_0p dec_0p ra_0m dec_0m : R)"
                " : R * R * R * R :=\n  %s\n  (%s, %s, %s, %s)." % (
                    "\n  ".join(lets), t.env["dra_dx"], t.env["dra_dy"], t.env["ddec_dx"], t.env["ddec_dy"]))
+    out.append(flow_image2sky(tree))
+    out.append(flow_sky2image(tree))
     return "\n\n".join(out) + "\n"
+
+
+# ---- control flow of image2sky / sky2image(find=False): which of CD matrix and distortion comes first ----
+
+_COND = "distort and self.distort['name'] != 'none'"
+
+
+class Flow:
+    """branch bodies made of pair assignments from self.ApplyCDMatrix / self.Distort / a pair of names and
+    `if distort and self.distort["name"] != "none":` -> nested lets over pairs; a pair read before it is
+    assigned on some path is a TranslateError"""
+
+    def __init__(self, calls, bound):
+        self.calls = calls              # python call text prefix -> coq function
+        self.bound = set(bound)         # pair names bound so far, e.g. "u,v"
+
+    def pair_expr(self, node):
+        if isinstance(node, ast.Tuple) and len(node.elts) == 2 and all(isinstance(e, ast.Name) for e in node.elts):
+            key = "%s,%s" % (node.elts[0].id, node.elts[1].id)
+            if key not in self.bound:
+                raise TranslateError("(%s) is read before it is assigned" % key)
+            return "(%s, %s)" % (node.elts[0].id, node.elts[1].id)
+        if isinstance(node, ast.Call):
+            f = ast.unparse(node.func)
+            kw = ",".join("%s=%s" % (k.arg, ast.unparse(k.value)) for k in node.keywords)
+            fk = f + ("[" + kw + "]" if kw else "")
+            if fk in self.calls and len(node.args) == 2 and all(isinstance(a, ast.Name) for a in node.args):
+                key = "%s,%s" % (node.args[0].id, node.args[1].id)
+                if key not in self.bound:
+                    raise TranslateError("(%s) is read before it is assigned in %s" % (key, ast.unparse(node)))
+                return "(%s %s %s)" % (self.calls[fk], node.args[0].id, node.args[1].id)
+        raise TranslateError("cannot translate pair expression %s" % ast.unparse(node))
+
+    def stmts(self, body, result):
+        """-> coq expression of type R * R computing the pair `result` after running body"""
+        lines = []
+        for st in body:
+            if isinstance(st, ast.Assign) and len(st.targets) == 1 and isinstance(st.targets[0], ast.Tuple) \
+                    and len(st.targets[0].elts) == 2 and all(isinstance(e, ast.Name) for e in st.targets[0].elts):
+                a, b = [e.id for e in st.targets[0].elts]
+                lines.append("let p_ := %s in let %s := fst p_ in let %s := snd p_ in" % (self.pair_expr(st.value), a, b))
+                self.bound.add("%s,%s" % (a, b))
+                continue
+            if isinstance(st, ast.If) and ast.unparse(st.test) == _COND:
+                # the pairs assigned in the branches
+                tg = set()
+                for br in (st.body, st.orelse):
+                    for x in br:
+                        if not (isinstance(x, ast.Assign) and isinstance(x.targets[0], ast.Tuple)):
+                            raise TranslateError("unexpected statement under the distortion switch: %s" % ast.unparse(x))
+                        tg.add(tuple(e.id for e in x.targets[0].elts))
+                if len(tg) != 1:
+                    raise TranslateError("the distortion switch assigns %s" % sorted(tg))
+                a, b = tg.pop()
+                f1 = Flow(self.calls, self.bound)
+                e1 = f1.stmts(st.body, (a, b))
+                f2 = Flow(self.calls, self.bound)
+                e2 = f2.stmts(st.orelse, (a, b))
+                lines.append("let p_ := (if use then %s else %s) in let %s := fst p_ in let %s := snd p_ in" % (e1, e2, a, b))
+                self.bound.add("%s,%s" % (a, b))
+                continue
+            raise TranslateError("cannot translate statement: %s" % ast.unparse(st))
+        key = "%s,%s" % result
+        if key not in self.bound:
+            raise TranslateError("(%s) is read before it is assigned on some path" % key)
+        return "(%s (%s, %s))" % (" ".join(lines), result[0], result[1])
+
+
+def _proj_switch(node, what):
+    """if p in ['-TAN', '-TPV']: A  elif p == '-TAN-SIP': B  else: raise   -> (A, B)"""
+    if not (isinstance(node, ast.If) and ast.unparse(node.test) == "p in ['-TAN', '-TPV']" and len(node.orelse) == 1
+            and isinstance(node.orelse[0], ast.If) and ast.unparse(node.orelse[0].test) == "p == '-TAN-SIP'"
+            and len(node.orelse[0].orelse) == 1 and isinstance(node.orelse[0].orelse[0], ast.Raise)):
+        raise TranslateError("%s: unexpected projection switch" % what)
+    return node.body, node.orelse[0].body
+
+
+def flow_image2sky(tree):
+    fn = _method(tree, "image2sky")
+    _args(fn, ["self", "x", "y", "distort"])
+    b = _body(fn)
+    want = {0: "xdiff = x - self.crpix[0]", 1: "ydiff = y - self.crpix[1]", 2: "p = self.projection.upper()",
+            4: "longitude, latitude = self.image2sph(u, v)", 5: "return (longitude, latitude)"}
+    if len(b) != 6:
+        raise TranslateError("image2sky has %d statements, expected 6" % len(b))
+    for i, t in want.items():
+        if ast.unparse(b[i]) != t:
+            raise TranslateError("image2sky statement %d is %r, expected %r" % (i, ast.unparse(b[i]), t))
+    tan, sip = _proj_switch(b[3], "image2sky")
+    calls = {"self.ApplyCDMatrix": "f_cd", "self.Distort": "f_distort"}
+    e_tan = Flow(calls, {"xdiff,ydiff"}).stmts(tan, ("u", "v"))
+    e_sip = Flow(calls, {"xdiff,ydiff"}).stmts(sip, ("u", "v"))
+    return ("Definition src_pix2inter (f_cd f_distort : R -> R -> R * R) (use is_sip : bool) (x y crpix0 crpix1 : R) : R * R :=\n"
+            "  let xdiff := x - crpix0 in let ydiff := y - crpix1 in\n  if is_sip then %s\n  else %s." % (e_sip, e_tan))
+
+
+def flow_sky2image(tree):
+    """the find=False branch of sky2image: from the tangent-plane (u, v) to pixel offsets"""
+    fn = _method(tree, "sky2image")
+    _args(fn, ["self", "longitude", "latitude", "distort", "find", "xtol"])
+    b = _body(fn)
+    if not (len(b) == 2 and isinstance(b[0], ast.If) and ast.unparse(b[0].test) == "find and self.distort['name'] != 'none'"
+            and ast.unparse(b[1]) == "return (x, y)"):
+        raise TranslateError("sky2image has an unexpected shape")
+    if [ast.unparse(x) for x in b[0].body] != ["x, y = self._findxy(longitude, latitude, xtol=xtol)"]:
+        raise TranslateError("sky2image: unexpected root-finding branch")
+    e = b[0].orelse
+    want = {0: "u, v = self.sph2image(longitude, latitude)", 1: "p = self.projection.upper()",
+            3: "x = xdiff + self.crpix[0]", 4: "y = ydiff + self.crpix[1]"}
+    if len(e) != 5:
+        raise TranslateError("sky2image: direct branch has %d statements, expected 5" % len(e))
+    for i, t in want.items():
+        if ast.unparse(e[i]) != t:
+            raise TranslateError("sky2image statement %d is %r, expected %r" % (i, ast.unparse(e[i]), t))
+    tan, sip = _proj_switch(e[2], "sky2image")
+    calls = {"self.ApplyCDMatrix[inverse=True]": "f_cdinv", "self.Distort[inverse=True]": "f_distinv"}
+    e_tan = Flow(calls, {"u,v"}).stmts(tan, ("xdiff", "ydiff"))
+    e_sip = Flow(calls, {"u,v"}).stmts(sip, ("xdiff", "ydiff"))
+    return ("Definition src_inter2pix (f_cdinv f_distinv : R -> R -> R * R) (use is_sip : bool) (u v crpix0 crpix1 : R) : R * R :=\n"
+            "  let d_ := (if is_sip then %s\n  else %s) in\n  (fst d_ + crpix0, snd d_ + crpix1)." % (e_sip, e_tan))
 
 
 def cR_exact(x):
